@@ -133,7 +133,7 @@ def with_watchdog(fn, case, seconds=None):
 
 
 def run_given(strategy, oracle, seed, max_examples, stats, shrink_budget=60.0, time_budget=None,
-              on_timeout="skip"):
+              on_timeout="skip", journal=None):
     """Drive `oracle(case)` (raises Violation on failure) with Hypothesis.
 
     Returns None if no violation, else dict(case=…, msg=…).  `case` objects must
@@ -155,6 +155,8 @@ def run_given(strategy, oracle, seed, max_examples, stats, shrink_budget=60.0, t
         if time_budget is not None and guard.first_fail_t is None and time.time() - t0 > time_budget:
             stats.budget_exhausted = True
             return
+        if journal is not None:
+            journal(case)          # if the interpreter dies inside this case the runner reports it
         try:
             with_watchdog(oracle, case)
         except CaseTimeout:
